@@ -54,6 +54,10 @@ FAULTS = {
     "too-few-macro-arguments-unused-parameter": [".macro m_flt2(p_fc, p_fd) {", ".db p_fc", "}", "m_flt2(1)"],
     "no-macro-argument-unused-parameter": [".macro m_flt4(p_fe) {", "nop", "}", "m_flt4()"],
     "undefined-addressing-mode": ["nop #0"],
+    "implied-instruction-with-operand": ["rts 0"],
+    "implied-instruction-with-register-name": ["rts a"],
+    "implied-instruction-with-upper-case-register-name": ["clc A"],
+    "implied-instruction-with-index-name": ["pha x"],
     "undefined-width-rep": ["rep.w #1"],
     "undefined-width-lda": ["lda.l #1"],
     "branch-out-of-range": ["lb_flt_t:", ".ascii '" + "x" * 200 + "'", "bra lb_flt_t"],
